@@ -41,6 +41,10 @@ def falsify(ctx, cfg, rows, init, ops, meta) -> bool:
 
 
 # ---- clause 2: readings on the retained candles equal those of an untrimmed run ----
+# indicators that, once seeded, compute the next reading from the previous candle only
+RECURSIVE = {"EMA", "RMA", "ATR", "RSI", "OBV", "VWAP", "MACD", "TSI", "ADX", "SUPERTREND", "KC"}
+
+
 def lookback_candles(spec: Dict) -> int:
     """How many candles before the new one the indicator may look at (over-estimated)."""
     kw = spec["kw"]
@@ -121,8 +125,21 @@ def run_readings(ctx: core.Ctx):
         k = rng.randint(0, w)                # nothing is trimmed before it was calculated: each reading is
                                              # computed while its whole look-back is still retained
         cfg = {"lifespan": w * step}
+        sparse = 0
+        if kind in RECURSIVE and rng.random() < 0.5:
+            # purely recursive once seeded: one predecessor is all the look-back.  After a dense warm-up
+            # the stream thins out, so that the window holds only two or three candles.
+            dense = 2 * w + rng.randint(4, 12)
+            sparse = rng.randint(4, 25)
+            rows = X.gen_rows(rng, dense + sparse, late=0, step=step)
+            gap = (w * step) // 2
+            for j in range(dense, dense + sparse):
+                rows[j]["ts"] = rows[j - 1]["ts"] + gap
+            for r in rows:
+                r["inds"] = {}
+            k = rng.randint(0, w)
         chunks = [[r] for r in rows[k:]]
-        c = {"spec": spec, "rows": rows, "init": rows[:k], "chunks": chunks, "cfg": cfg}
+        c = {"spec": spec, "rows": rows, "init": rows[:k], "chunks": chunks, "cfg": cfg, "sparse": sparse}
         ctx.count("eval_falsifier")
         falsify_readings(ctx, c)
         corr.add(spec, cfg, rows[:k], [("calculate",)] + [("append", ch) for ch in chunks[:w + 6]], rng, {"kind": kind})
